@@ -12,6 +12,8 @@ pub mod c08;
 pub mod c10;
 pub mod c11;
 pub mod c11_l2;
+pub mod c12;
+pub mod c13;
 pub mod c14;
 pub mod c15;
 pub mod c17;
@@ -30,6 +32,8 @@ pub fn dispatch(args: &Args) -> i32 {
         "C08" => c08::run(args),
         "C10" => c10::run(args),
         "C11" => c11::run(args),
+        "C12" => c12::run(args),
+        "C13" => c13::run(args),
         "C14" => c14::run(args),
         "C15" => c15::run(args),
         "C17" => c17::run(args),
